@@ -357,18 +357,19 @@ class Interp:
                 # the program watches the resource die (a finalizer): at
                 # that instant the handle no longer claims to hold it
                 import weakref
-                f = weakref.finalize(v, self.on_value_death, hid)
+                f = weakref.finalize(v, self.on_value_death, hid,
+                                     st.completed + 1)
                 f.atexit = False
         st.completed += 1
         st.last = _WeakBox(v) if st.vcode == 'weakobj' else v
         return v
 
-    def on_value_death(self, hid):
+    def on_value_death(self, hid, load_no):
         if self.closed:
             return
         st = self.h.get(hid)
-        if st is None:
-            return
+        if st is None or st.completed != load_no:
+            return      # (the handle has loaded a newer resource since)
         self.probes['resource_finalizer_looked_at_its_handle'] += 1
         try:
             flag = st.obj.cached
